@@ -58,6 +58,12 @@ def build(case) -> Built:
         elif link['kind'] == 'gear':
             gu.add_gear_mating(master=b.elements[i - 1], slave=b.elements[i], efficiency=link['eta'])
         else:
+            # earlier declarations of the same mating (a user trying several friction coefficients): the last one counts
+            for f_prev in link.get('f_prev', []):
+                try:
+                    gu.add_worm_gear_mating(master=b.elements[i - 1], slave=b.elements[i], friction_coefficient=f_prev)
+                except ValueError:
+                    pass
             gu.add_worm_gear_mating(master=b.elements[i - 1], slave=b.elements[i],
                                     friction_coefficient=link['f'])
     b.motor = b.elements[0]
@@ -80,11 +86,12 @@ def build(case) -> Built:
     return b
 
 
-def apply_initial_conditions(b, init=None):
+def apply_initial_conditions(b, init=None, pwm=True):
     init = init or b.case['init']
     b.last.angular_position = B.q('AngularPosition', init['pos'])
     b.last.angular_speed = B.q('AngularSpeed', init['speed'])
-    b.motor.pwm = b.case['motor'].get('pwm0', 1)
+    if pwm:
+        b.motor.pwm = b.case['motor'].get('pwm0', 1)
 
 
 def build_control(b):
@@ -216,7 +223,7 @@ def run_op(b: Built, op: dict):
     elif kind == 'reset':
         b.powertrain.reset()
         if op.get('reinit', True):
-            apply_initial_conditions(b, op.get('init'))
+            apply_initial_conditions(b, op.get('init'), pwm=op.get('reinit_pwm', True))
     else:
         raise ValueError(kind)
 
